@@ -668,7 +668,7 @@ func confB(rep *vc.Report) {
 			rep.Notes = append(rep.Notes, "conformance B skipped: loopback TCP not available here: "+strings.TrimSpace(string(out)))
 			return
 		}
-		rep.Nondet = "conformance B: the un-instrumented server over real TCP differs from the instrumented one on the virtual socket (socket model or rewriter wrong):\n" + string(out)
+		rep.SoftBroken = "conformance B: the un-instrumented server over real TCP differs from the instrumented one on the virtual socket (socket model or rewriter wrong, unless the server's replies depend on how TCP cut the stream):\n" + string(out)
 		return
 	}
 	rep.Count("conformance_b_conversations_identical_over_real_tcp", int64(len(traces)))
